@@ -117,17 +117,26 @@ def main(c):
         "two Resize calls in a row: the image of the second call is the one to show: CellSize() is a fit of the second "
         "box (kitty, sixel) and the transmitted PNG has that size (kitty; a sixel transmission does not tell its size)",
         "sufficiently transparent = 8-bit alpha below 50 (the library's documented threshold)",
-        "a full-block cell covering one transparent and one opaque pixel is left open",
+        "the colour of a pixel is its straight colour: a pixel whose channels are the premultiplied form of 8-bit straight "
+        "values (any 8-bit straight-alpha source, every alpha level) is shown with exactly those values; for other pixels "
+        "either 8-bit neighbour of c*255/a is accepted",
+        "a full-block cell covering one sufficiently transparent and one visible pixel shows the default colour or exactly "
+        "the visible pixel's colour (which of the two is left open)",
+        "a Resize that leaves the image less than one pixel high or wide may or may not produce a drawable image and a "
+        "Redraw: only what is displayed afterwards is judged (it is what CellSize() reports, inside the window)",
+        "a change of the cell pixel size alone (same columns and rows) is reported in band like any size change; images "
+        "resized afterwards are measured in the new cells (kitty: the transmitted PNG; sixel sizes are not visible)",
         "a sixel image occupies the cells the library reports for it; kitty images occupy the cells of the PNG they transmit",
         "aspect kept to within one cell: some scale s has |ow - s*iw/cw| <= 1 and |oh - s*ih/ch| <= 1",
     ]
     selftest_ok = True
     heap(4096)
     if not c.replay:
-        runs = [("MC_Gfx.tla", "MC_Fit.cfg"), ("MC_Gfx.tla", "MC_Place.cfg"), ("MC_Enc.tla", "MC_Enc.cfg")]
+        runs = [("MC_Gfx.tla", "MC_Fit.cfg"), ("MC_Gfx.tla", "MC_Place.cfg"), ("MC_Enc.tla", "MC_Enc.cfg"),
+                ("MC_Chan.tla", "MC_Chan.cfg")]
         if c.tier != "quick":
             runs += [("MC_Gfx.tla", "MC_Fit_deep.cfg"), ("MC_Gfx.tla", "MC_Place_deep.cfg")]
-        with cf.ThreadPoolExecutor(max_workers=3) as ex:
+        with cf.ThreadPoolExecutor(max_workers=4) as ex:
             list(ex.map(lambda r: c.model_check(specs, r[0], r[1], workers=4), runs))
         for m in c.cov["models"]:
             if not m["ok"]:
@@ -185,4 +194,8 @@ def main(c):
              "top/bottom position x 11 kinds of source image x origin; histories: seeded add/keep/move/resize/drop over <= 3 "
              "images with Render/Refresh/terminal resize for kitty and sixel, kitty histories with two Resize calls in a row "
              "(long then short encoding and the reverse); one record in four uses an image whose bounds do not start at "
-             "(0,0); distinct = distinct records / history descriptors")
+             "(0,0); follow-up families: semi-transparent pixels of known straight colour in 7 kinds of source and cells "
+             "over one transparent and one visible pixel; fits of images 100:1 / 1:100 and beyond into boxes one cell high "
+             "or wide; histories whose image is resized into a box that leaves it less than one pixel thick; histories in "
+             "which the cell pixel size changes (same columns and rows) and the images are resized again; "
+             "distinct = distinct records / history descriptors")
